@@ -150,6 +150,26 @@ Section Stream.
     let off := N.min (s_last s) (len all) in
     process_stream_new_msgs s off (skipN off all) max_chunk.
 
+  (* every way in which parsed messages can become available to the server loop: batches of arrivals
+     interleaved with processing calls of any chunk size (and, for queries, changes of the window end) *)
+  Inductive sstep :=
+  | SArrive (ms : list M)
+  | SProc (chunk : N)
+  | SEnd (e : N).
+  Fixpoint sched_run (all : list M) (s : sctx) (sch : list sstep) : list M * sctx :=
+    match sch with
+    | [] => (all, s)
+    | SArrive ms :: r => sched_run (all ++ ms) s r
+    | SProc c :: r => sched_run all (feed all c s) r
+    | SEnd e :: r => sched_run all (set_to_end s e) r
+    end.
+  Definition chunks_ok (sch : list sstep) : Prop :=
+    forall c, In (SProc c) sch -> 1 <= c.
+  Definition no_end_change (sch : list sstep) : Prop :=
+    forall e, ~ In (SEnd e) sch.
+  (* all positions of the log that pass the filter set *)
+  Definition matching (fs : fset) (all : list M) : list N := matching_idxs fs all 0.
+
   (* ------------------------------------------------------------------ send step of process_file_context *)
   Inductive frame :=
   | FInfo (id nr_stream processed total : N)      (* BinType::StreamInfo *)
